@@ -439,6 +439,25 @@ func genDecoderInput(rng *rand.Rand) []byte {
 			}
 		}
 		return b
+	case 3: // many well-formed lines with over-long length bytes (up to 0xFF = 223 bytes per line)
+		var b []byte
+		nl := 1 + rng.IntN(120)
+		lb := byte(0x4e + rng.IntN(0xb2))
+		for k := 0; k < nl; k++ {
+			if rng.IntN(4) == 0 {
+				lb = byte(0x21 + rng.IntN(0xdf))
+			}
+			nDec := int(lb) - 32
+			b = append(b, lb)
+			for j := 0; j < (nDec+2)/3*4; j++ {
+				b = append(b, byte(32+rng.IntN(65)))
+			}
+			if rng.IntN(6) == 0 {
+				b = append(b, '\r')
+			}
+			b = append(b, '\n')
+		}
+		return b
 	case 2: // lines with every possible length byte
 		var b []byte
 		for k := 0; k < 1+rng.IntN(4); k++ {
